@@ -896,6 +896,7 @@ class TraitsGen:
                 b = "::sbepp::%s_%st" % (f["type"], "opt_" if f["presence"] == "optional" else "")
                 self.same("is:value_type", ft + "::value_type", b, nt=f["presence"] == "optional")
                 self.same("is:value_type_tag", ft + "::value_type_tag", b)
+                self.builtin_traits(f["type"], f["presence"] == "optional", "sbepp::type_traits<typename " + ft + "::value_type_tag>")
             else:
                 tgt = self.lookup(f["type"])
                 templ = tgt["kind"] == "composite" or (tgt["kind"] == "type" and type_length(tgt) != 1)
@@ -903,6 +904,36 @@ class TraitsGen:
                           self.pub_type(tgt["name"]) + ("<char>" if templ else ""), nt=True)
                 self.same("is:value_type_tag", ft + "::value_type_tag", self.type_tag(tgt["name"]), nt=True)
         self.end()
+
+    def builtin_traits(self, prim, opt, tr):
+        """traits of the built-in type a primitive-typed field names through value_type_tag: name, presence, length and the
+        SBE default min/max/null of the primitive"""
+        self.chk("vt:presence", "%s::presence() == sbepp::field_presence::%s" % (tr, "optional" if opt else "required"), nt=opt)
+        self.chk("vt:name", "std::strcmp(%s::name(), %s) == 0" % (tr, cstr(prim)))
+        self.chk("vt:length", "%s::length() == 1" % tr)
+        self.chk("vt:since_version", "%s::since_version() == 0" % tr)
+        self.same("vt:primitive_type", "typename %s::primitive_type" % tr, CPP_PRIM[prim])
+        size, kind = PRIMS[prim]
+        if kind == "f":
+            if opt:
+                self.chk("vt:null_is_nan", "%s::null_value() != %s::null_value()" % (tr, tr), nt=True)
+            return
+        if kind == "c":
+            lo, hi, null = 0x20, 0x7e, 0
+        elif kind == "u":
+            lo, hi, null = 0, 2 ** (8 * size) - 2, 2 ** (8 * size) - 1
+        else:
+            lo, hi, null = -(2 ** (8 * size - 1)) + 1, 2 ** (8 * size - 1) - 1, -(2 ** (8 * size - 1))
+
+        def lit(v):
+            if kind == "u":
+                return "%dULL" % v
+            return "(-%dLL - 1)" % (-v - 1) if v < 0 else "%dLL" % v
+        cast = "static_cast<long long>" if kind != "u" else "static_cast<unsigned long long>"
+        self.chk("vt:min_value", "%s(%s::min_value()) == %s" % (cast, tr, lit(lo)))
+        self.chk("vt:max_value", "%s(%s::max_value()) == %s" % (cast, tr, lit(hi)))
+        if opt:
+            self.chk("vt:null_value", "%s(%s::null_value()) == %s" % (cast, tr, lit(null)), nt=True)
 
     def do_data(self, label, tag, d, md, view, deep):
         self.ent(label, "data", tag, force_nt=deep)
